@@ -271,11 +271,10 @@ pub async fn wait_tasks(baseline: usize) {
         if alive_tasks() <= baseline {
             return;
         }
-        tokio::task::yield_now().await;
+        // poll with short sleeps rather than spinning on yield_now: a busy block_on root was
+        // observed to keep freshly spawned tasks from being picked up on larger runtimes
         spins += 1;
-        if spins % 64 == 0 {
-            tokio::time::sleep(Duration::from_micros(200)).await;
-        }
+        tokio::time::sleep(Duration::from_micros(if spins < 20 { 30 } else { 150 })).await;
         if start.elapsed() > Duration::from_secs(30) {
             crate::vcore::machinery_error(&format!(
                 "background tasks did not quiesce: alive={} baseline={}",
